@@ -89,6 +89,17 @@ func c14(c *Ctx) {
 	}
 	for j := 0; j < n; j++ {
 		cs := genConstraints(rng)
+		if j >= 3 && j <= 6 {
+			// long conjunctions of single tags, as a feature matrix produces them
+			cs = buildtags.Constraints{}
+			for t := 0; t < []int{40, 101, 150, 260}[j-3]; t++ {
+				term := fmt.Sprintf("!feat%03d", t)
+				if t == 2 || t == 5 {
+					term = term[1:]
+				}
+				cs = append(cs, buildtags.Constraint{buildtags.Option{buildtags.Term(term)}})
+			}
+		}
 		names := map[string]bool{}
 		var csCoq []string
 		var descParts []string
